@@ -14,13 +14,13 @@ def run(prop, tier, seed, wd):
     for st in cfgs:
         for sdk in ("v1", "v2"):
             for i in range(st["seeds"]):
-                jobs.append((sdk, st["scenario"], seed * 1000 + i, st["g"], st["n"]))
+                jobs.append((sdk, st["scenario"], seed * 1000 + i, st["g"], st["n"], st.get("race", True)))
     recs = []
     with cf.ThreadPoolExecutor(max_workers=4) as ex:
-        futs = [ex.submit(P.record_history, sdk, sc, sd, g, n, wd) for sdk, sc, sd, g, n in jobs]
-        for (sdk, sc, sd, g, n), f in zip(jobs, futs):
+        futs = [ex.submit(P.record_history, sdk, sc, sd, g, n, wd, race) for sdk, sc, sd, g, n, race in jobs]
+        for (sdk, sc, sd, g, n, race), f in zip(jobs, futs):
             r = f.result()
-            r.update(sdk=sdk, scenario=sc, seed=sd, g=g, n=n)
+            r.update(sdk=sdk, scenario=sc, seed=sd, g=g, n=n, race=race)
             recs.append(r)
     todo = [r for r in recs if r["path"]]
     with cf.ThreadPoolExecutor(max_workers=P.NJUDGE) as ex:
